@@ -415,9 +415,14 @@ def contract(res, ref, key, q, Tc, h, atol, out, cap):
     res.stat('fuel_rise_K', float(np.max((Tl - Tf)[v])))
     mech = 'fuel_centre'
     if w > 1.0 and ref.annular:
+        # does the solid-cylinder shell formula explain the reported value?
         N2, L2, S2, ok2 = ref.fuel_reference(q, Tf, solid_formula=True)
+        e2 = np.zeros(n)
+        for i2 in reversed(range(nz)):
+            with np.errstate(all='ignore'):
+                e2 = S2[i2] * e2 + (SAFETY * L2[i2] + 1e-3) * atol
         bad = v & (rl > tol_l)
-        if np.all(np.abs(Tl - N2[0])[bad] <= 2.0 * tol_l[bad] + 1e-6):
+        if np.all(np.abs(Tl - N2[0])[bad] <= e2[bad] + 1e-10 * Tabs[bad]):
             mech = MECH_ANNULAR
     res.check('fuel_centre_reference', w <= 1.0,
               'fuel centre differs from the shell-by-shell reference by '
@@ -446,12 +451,15 @@ def contract(res, ref, key, q, Tc, h, atol, out, cap):
             j, w = _worst(np.where(v, ra / tol_i, 0.0))
             mech = 'fuel_shell'
             if w > 1.0 and ref.annular:
+                # does the solid-cylinder shell formula explain it?
                 c2 = qv * ref.G(i, solid_formula=True)
                 with np.errstate(all='ignore'):
                     r2 = np.abs((Tin - Tout)
                                 - c2 / pr.kmean_ends(kf, Tout, Tin))
+                    Li2, _ = pr.layer_sensitivities(kf, Tout, Tin - Tout, c2)
+                tol2 = (SAFETY * Li2 + 1e-3) * atol + 1e-10 * Tabs
                 bad = v & (ra > tol_i)
-                if np.all(r2[bad] <= 2.0 * tol_i[bad] + 1e-6):
+                if np.all(r2[bad] <= tol2[bad]):
                     mech = MECH_ANNULAR
             res.stat('fuel_shell_resid_over_tol', w)
             res.stat('fuel_shell_resid_K',
